@@ -532,8 +532,8 @@ class FDCaptureBase(CaptureBase[AnyStr]):
         self._assert_state("resume", ("started", "suspended"))
         if self._state == "started":
             return
-        self.syscapture.resume()
         os.dup2(self.tmpfile.fileno(), self.targetfd)
+        self.syscapture.resume()
         self._state = "started"
 
 
